@@ -14,7 +14,7 @@ pub fn property() -> Property {
     Property {
         id: "C19",
         level: "fault_enumeration",
-        rule: "The scripted peer serves a prefix of a well-formed response and then PAUSES (a read arriving at the pause is what would block on a real socket and is recorded as blocked_read). Pause points: EVERY wire offset from the end of the head to the end of the frame for 18 fixed small responses (exhaustive; covers after-the-head, after each complete chunk, inside size lines / CRLFs, after every byte of length- and close-delimited bodies), sampled offsets and chunk boundaries for random and > 64 KiB bodies; served prefix as one segment, bytewise or random segments; caller read sizes {1,2,7,4096, larger than available}. Oracle (purely logical, no clock): send() returns Ok with zero blocked reads once the blank line was served; while the caller has received less than the AVAILABLE payload (all served bytes for length/close framing; data of every chunk whose trailing CRLF was served, computed by the reference decoder) no read may block, fail or report end-of-body, and delivered bytes equal the payload prefix; when the whole frame (length/chunked) was served the end-of-body read returns Ok(0) without blocking; a followed redirect whose body the server holds back (5 statuses x 3 framings x 4 amounts served) is followed without a blocked read on the first connection; with two requests in flight on real loopback sockets, the one whose response has arrived is delivered while the other one's server is still silent. write_to() and split().2.write_to() are driven at every pause offset of the 18 fixed responses too: the caller's writer must have received all AVAILABLE bytes before write_to first asks the transport for bytes the server has not sent. Non-trivial: available > 0 or pause right after the head; distinct = hash(wire, pause offset, segmentation, read size).",
+        rule: "The scripted peer serves a prefix of a well-formed response and then PAUSES (a read arriving at the pause is what would block on a real socket and is recorded as blocked_read). Pause points: EVERY wire offset from the end of the head to the end of the frame for 18 fixed small responses (exhaustive; covers after-the-head, after each complete chunk, inside size lines / CRLFs, after every byte of length- and close-delimited bodies), sampled offsets and chunk boundaries for random and > 64 KiB bodies; served prefix as one segment, bytewise or random segments; caller read sizes {1,2,7,4096, larger than available}. 'tls-pause': the statement over TLS - a real loopback TLS server sends head + 5 000 body bytes, pauses 2 s, sends the rest (three framings x caller buffers 65 536 / 40 000 / 16 384 / 1): send() returns and the first part is readable within 1.2 s. Oracle (purely logical, no clock): send() returns Ok with zero blocked reads once the blank line was served; while the caller has received less than the AVAILABLE payload (all served bytes for length/close framing; data of every chunk whose trailing CRLF was served, computed by the reference decoder) no read may block, fail or report end-of-body, and delivered bytes equal the payload prefix; when the whole frame (length/chunked) was served the end-of-body read returns Ok(0) without blocking; a followed redirect whose body the server holds back (5 statuses x 3 framings x 4 amounts served) is followed without a blocked read on the first connection; with two requests in flight on real loopback sockets, the one whose response has arrived is delivered while the other one's server is still silent. write_to() and split().2.write_to() are driven at every pause offset of the 18 fixed responses too: the caller's writer must have received all AVAILABLE bytes before write_to first asks the transport for bytes the server has not sent. Non-trivial: available > 0 or pause right after the head; distinct = hash(wire, pause offset, segmentation, read size).",
         assumptions: &["uncompressed bodies only (the statement's quantifier)", "delivering more than the statement's minimum (e.g. the first 64 KiB of an incomplete chunk) is not a violation"],
         min_nontrivial: |t| t.pick(5_000, 100_000),
         gens,
@@ -33,6 +33,8 @@ fn gens(tier: Tier) -> Vec<Gen> {
         Gen { name: "redirect-then-pause", count: (5 * 3 * 4 * 2) as u64, exhaustive: true, run: run_redirect_pause },
         Gen { name: "text_reader-everyoffset", count: text_reader_count(), exhaustive: true, run: run_text_reader },
         Gen { name: "concurrent-heads", count: 6, exhaustive: true, run: run_concurrent_heads },
+        #[cfg(any(feature = "native", feature = "rustls-any"))]
+        Gen { name: "tls-pause", count: (3 * 4 * 2) as u64, exhaustive: true, run: run_tls_pause },
         Gen { name: "nobody", count: 48, exhaustive: true, run: run_nobody },
         Gen { name: "both-framings", count: 2 * 3 * 14, exhaustive: true, run: run_both_framings },
     ]
@@ -516,6 +518,103 @@ fn run_redirect_pause(ctx: &mut Ctx, _rng: &mut Rng, index: u64) {
 /// two requests in flight at once (real loopback sockets): while the server of request A has not
 /// sent its head yet, request B - whose complete response has arrived - is delivered; B never
 /// waits for bytes of another connection
+/// the same statement over TLS (a real loopback TLS server): the head and the first part of the
+/// body arrive in TLS records, then the server pauses for 2 s. send() returns and everything that
+/// has arrived is readable long before the pause is over, whatever the size of the caller's buffer
+/// (a buffer with room for further TLS records must not make the read wait for them)
+#[cfg(any(feature = "native", feature = "rustls-any"))]
+fn run_tls_pause(ctx: &mut Ctx, _rng: &mut Rng, index: u64) {
+    use crate::netsrv::{read_head, write_all_ignore, Server};
+    use std::io::Write;
+    use std::time::{Duration, Instant};
+    let framing = (index % 3) as usize;
+    let bufsize = [65536usize, 40_000, 16_384, 1][((index / 3) % 4) as usize];
+    const FIRST: usize = 5_000;
+    const TOTAL: usize = 60_000;
+    let payload: Vec<u8> = (0..TOTAL).map(|i| (i * 7 + i / 251) as u8).collect();
+    // (head and first body part travel in separate TLS records, 150 ms apart, in half of the cases:
+    //  the first body bytes are then read straight from the TLS stream into the caller's buffer,
+    //  not out of the head parser's read-ahead)
+    let split_head = (index / 12) % 2 == 1;
+    let (head_wire, first_wire, rest_wire): (Vec<u8>, Vec<u8>, Vec<u8>) = match framing {
+        0 => (format!("HTTP/1.1 200 OK\r\nContent-Length: {TOTAL}\r\n\r\n").into_bytes(), payload[..FIRST].to_vec(), payload[FIRST..].to_vec()),
+        1 => (b"HTTP/1.1 200 OK\r\n\r\n".to_vec(), payload[..FIRST].to_vec(), payload[FIRST..].to_vec()),
+        _ => (
+            b"HTTP/1.1 200 OK\r\nTransfer-Encoding: chunked\r\n\r\n".to_vec(),
+            [format!("{FIRST:x}\r\n").as_bytes(), &payload[..FIRST], b"\r\n"].concat(),
+            [format!("{:x}\r\n", TOTAL - FIRST).as_bytes(), &payload[FIRST..], b"\r\n0\r\n\r\n"].concat(),
+        ),
+    };
+    for attempt in 0..3 {
+        let acc = crate::bridge::acceptor("good");
+        let (hw, fw, rw) = (head_wire.clone(), first_wire.clone(), rest_wire.clone());
+        let srv: Server<()> = Server::spawn(move |s: std::net::TcpStream| {
+            if let Ok(mut tls) = acc.accept(s) {
+                let _ = read_head(&mut tls);
+                if split_head {
+                    write_all_ignore(&mut tls, &hw);
+                    let _ = tls.flush();
+                    std::thread::sleep(Duration::from_millis(150));
+                    write_all_ignore(&mut tls, &fw);
+                } else {
+                    write_all_ignore(&mut tls, &[&hw[..], &fw[..]].concat());
+                }
+                let _ = tls.flush();
+                std::thread::sleep(Duration::from_millis(2000));
+                write_all_ignore(&mut tls, &rw);
+                let _ = tls.shutdown();
+            }
+        });
+        attohttpc::verif_hooks::set_resolver_override("good.test", Some(vec![std::net::SocketAddr::from(([127, 0, 0, 1], srv.port))]));
+        let t0 = Instant::now();
+        let res = attohttpc::get(format!("https://good.test:{}/c19", srv.port)).add_root_certificate(crate::tlsfix::load_cert("ca")).read_timeout(Duration::from_secs(6)).connect_timeout(Duration::from_secs(3)).send();
+        let t_head = t0.elapsed();
+        let mut got = Vec::new();
+        let mut err = None;
+        let mut t_first = t_head;
+        let mut all_ok = false;
+        match res {
+            Err(e) => err = Some(format!("send: {e:?}")),
+            Ok(mut resp) => {
+                let mut buf = vec![0u8; bufsize];
+                while got.len() < FIRST {
+                    match resp.read(&mut buf) {
+                        Ok(0) => break,
+                        Ok(n) => got.extend_from_slice(&buf[..n]),
+                        Err(e) => {
+                            err = Some(format!("read: {:?}: {e}", e.kind()));
+                            break;
+                        }
+                    }
+                }
+                t_first = t0.elapsed();
+                // the rest (only with the larger buffers: cost)
+                if err.is_none() && bufsize > 1 {
+                    let mut rest = Vec::new();
+                    all_ok = resp.read_to_end(&mut rest).is_ok() && [&got[..], &rest[..]].concat() == payload;
+                } else {
+                    all_ok = err.is_none();
+                }
+            }
+        }
+        drop(srv);
+        let descr = format!("https over a real loopback TLS server ({}), framing {}, caller buffer {bufsize} bytes: the head and the first {FIRST} body bytes are sent ({}), then the server pauses 2 s: send() returned after {t_head:?}, the first {FIRST} body bytes were readable after {t_first:?} ({} read), error: {err:?}", crate::tlsfix::BACKEND, ["length", "close", "chunked"][framing], if split_head { "in two TLS records 150 ms apart" } else { "in one write" }, got.len());
+        ctx.max("tls_pause_first_part_ms_max", t_first.as_millis() as u64);
+        if err.is_some() || got.len() < FIRST || got[..FIRST] != payload[..FIRST] || !all_ok {
+            ctx.violation("tls:body-differs-or-failed", descr);
+        } else if t_first > Duration::from_millis(1200) {
+            if attempt < 2 {
+                ctx.count("timing_verdicts_rechecked", 1);
+                continue;
+            }
+            ctx.violation("timing:tls:arrived-data-withheld-until-more-arrives", descr);
+        }
+        ctx.count("tls_pause_cases", 1);
+        break;
+    }
+    ctx.nontrivial(format!("tlspause{index}").as_bytes());
+}
+
 fn run_concurrent_heads(ctx: &mut Ctx, _rng: &mut Rng, index: u64) {
     use crate::netsrv::{read_head, write_all_ignore, Server};
     use std::sync::mpsc;
